@@ -245,7 +245,8 @@ def run(tier: str) -> int:
                     progs.append((n, f, srcs[n]))
         shapes = {n: iter_source_mutated(f) for (n, f, _) in progs}
         shorts = {n: fuse_in_short_circuit(f) for (n, f, _) in progs}
-        pairs, timeouts = equiv.make_pairs(progs, configs(tier), rng, nvec, stats, vectors_fn=vectors)
+        agree = []
+        pairs, timeouts = equiv.make_pairs(progs, configs(tier), rng, nvec, stats, vectors_fn=vectors, agree=agree)
         mm, skips, gen, dis = equiv.run_equiv(pairs)
     finally:
         shutil.rmtree(work, ignore_errors=True)
@@ -259,6 +260,8 @@ def run(tier: str) -> int:
         return k
     equiv.report(rep, pairs, timeouts, mm, skips, stats, extra_key=key,
                  precondition_error=lambda meta, err: 'STRICT' in meta['config'] and err == 'AssertionError')
+    equiv.run_agree(rep, agree, extra_key=key,
+                    precondition_error=lambda meta, err: 'STRICT' in meta['config'] and err == 'AssertionError')
     rep.cov['distinct_nontrivial'] = len({(m['program'], m['xsrc']) for (_, _, m) in pairs})
     rep.cov['rule'] = ('hand-written + generated loop programs x {unroll_for 1-3 PEEL/STRICT, unroll_while 1-2, split 2-3 PEEL/STRICT, '
                        'elim_iter, fuse, compositions} x list lengths 0..7 x caller contexts; STRICT judged only on lengths divisible by the '
